@@ -670,11 +670,16 @@ def _pat(m, p):
 def str_rfind(m, a, ci):
     s = _s(m, a[0])
     kind, p = _pat(m, a[1])
-    if kind != 'char':
-        raise EncoderGap('rfind with %s pattern' % kind)
     pre = s.prefix()
+    if kind == 'str':
+        k = len(p)
+        for i in range(len(s) - k, -1, -1):
+            if m.ctx.branch(str_eq(s.sub(i, i + k), p)):
+                return some(pre[i])
+        return NONE
+    f = char_pred(m, a[1])
     for i in range(len(s) - 1, -1, -1):
-        if m.ctx.branch(c_eq(s.chars[i], p)):
+        if m.ctx.branch(f(s.chars[i])):
             return some(pre[i])
     return NONE
 
@@ -684,9 +689,10 @@ def str_find(m, a, ci):
     s = _s(m, a[0])
     kind, p = _pat(m, a[1])
     pre = s.prefix()
-    if kind == 'char':
+    if kind in ('char', 'fn'):
+        f = char_pred(m, a[1])
         for i in range(len(s)):
-            if m.ctx.branch(c_eq(s.chars[i], p)):
+            if m.ctx.branch(f(s.chars[i])):
                 return some(pre[i])
         return NONE
     if kind == 'str':
@@ -709,7 +715,8 @@ def str_contains(m, a, ci):
         if k == 0:
             return True
         return b_or(*[str_eq(s.sub(i, i + k), p) for i in range(len(s) - k + 1)])
-    raise EncoderGap('contains with %s pattern' % kind)
+    f = char_pred(m, a[1])
+    return b_or(*[f(c) for c in s.chars])
 
 
 @reg('str::starts_with')
@@ -1992,3 +1999,204 @@ def hashset_contains(m, a, ci):
 @reg('HashSet::len', 'BTreeSet::len')
 def hashset_len(m, a, ci):
     return len(m.load(a[0]).items)
+
+
+# -- hash maps with path-concrete keys ---------------------------------------------------------------
+
+class MapV:
+    """finite map keyed by hashable python keys (span ids); values are model values"""
+    __slots__ = ('d',)
+
+    def __init__(self, d=None):
+        self.d = dict(d or {})
+
+    def elem(self, k):
+        return self.d[k]
+
+    def with_elem(self, k, v):
+        d = dict(self.d)
+        d[k] = v
+        return MapV(d)
+
+    def __repr__(self):
+        return 'Map%r' % (self.d,)
+
+
+def map_key(m, k):
+    k = m.load(k) if isinstance(k, Ref) else k
+    if isinstance(k, Opaque):
+        return (k.tag,) + tuple(k.deps)
+    if isinstance(k, (int, str)):
+        return k
+    raise EncoderGap('map key %r' % (k,))
+
+
+@reg('HashMap.Default::default', 'HashMap::new', 'HashMap::default', 'HashMap::with_hasher', 'HashMap::with_capacity_and_hasher')
+def hashmap_new(m, a, ci):
+    return MapV()
+
+
+@reg('HashMap::entry')
+def hashmap_entry(m, a, ci):
+    return Opaque('map_entry', (a[0], map_key(m, a[1])))
+
+
+def crate_default(m, ty):
+    from .machine import parse_call_name
+    fn = m.defs.resolve(parse_call_name('<%s as Default>::default' % ty))
+    if fn is None:
+        raise EncoderGap('Default for %s' % ty)
+    return m.call_fn(fn, [])
+
+
+@reg('Entry::or_default')
+def entry_or_default(m, a, ci):
+    ref, key = a[0].deps
+    mp = m.load(ref)
+    if key not in mp.d:
+        vty = strip_ref(ci.dest_ty) if ci.dest_ty else None
+        m.store(ref, mp.with_elem(key, crate_default(m, vty)))
+    return Ref(ref.frame, ref.local, ref.proj + (('elem', key),), True)
+
+
+@reg('Entry::or_insert')
+def entry_or_insert(m, a, ci):
+    ref, key = a[0].deps
+    mp = m.load(ref)
+    if key not in mp.d:
+        m.store(ref, mp.with_elem(key, a[1]))
+    return Ref(ref.frame, ref.local, ref.proj + (('elem', key),), True)
+
+
+@reg('HashMap::get')
+def hashmap_get(m, a, ci):
+    mp = m.load(a[0])
+    key = map_key(m, a[1])
+    if key in mp.d:
+        r = a[0]
+        return some(Ref(r.frame, r.local, r.proj + (('elem', key),)))
+    return NONE
+
+
+@reg('HashMap::contains_key')
+def hashmap_contains_key(m, a, ci):
+    return map_key(m, a[1]) in m.load(a[0]).d
+
+
+@reg('HashMap::insert')
+def hashmap_insert(m, a, ci):
+    mp = m.load(a[0])
+    key = map_key(m, a[1])
+    old = mp.d.get(key)
+    m.store(a[0], mp.with_elem(key, a[2]))
+    return some(old) if old is not None else NONE
+
+
+# -- integer helpers that can panic -------------------------------------------------------------------
+
+def _udiv(a, b):
+    if not is_sym(a) and not is_sym(b):
+        return a // b
+    return lite(z3.UDiv(bv(a, 64), bv(b, 64)))
+
+
+def _urem(a, b):
+    if not is_sym(a) and not is_sym(b):
+        return a % b
+    return lite(z3.URem(bv(a, 64), bv(b, 64)))
+
+
+@reg('usize::div_ceil')
+def usize_div_ceil(m, a, ci):
+    m.panic_if(i_eq(a[1], 0, 64), 'attempt to divide by zero')
+    q = _udiv(a[0], a[1])
+    r = _urem(a[0], a[1])
+    return b_ite(i_eq(r, 0, 64), q, i_add(q, 1))
+
+
+@reg('usize::checked_div')
+def usize_checked_div(m, a, ci):
+    if m.ctx.branch(i_eq(a[1], 0, 64)):
+        return NONE
+    return some(_udiv(a[0], a[1]))
+
+
+@reg('usize::checked_sub')
+def usize_checked_sub(m, a, ci):
+    if m.ctx.branch(i_ult(a[0], a[1])):
+        return NONE
+    return some(i_sub(a[0], a[1]))
+
+
+@reg('usize::checked_add')
+def usize_checked_add(m, a, ci):
+    s = i_add(a[0], a[1])
+    if m.ctx.branch(i_ult(s, a[0])):
+        return NONE
+    return some(s)
+
+
+@reg('usize::wrapping_sub')
+def usize_wrapping_sub(m, a, ci):
+    return i_sub(a[0], a[1])
+
+
+@reg('usize::wrapping_add')
+def usize_wrapping_add(m, a, ci):
+    return i_add(a[0], a[1])
+
+
+@reg('usize::is_multiple_of')
+def usize_is_multiple_of(m, a, ci):
+    if m.ctx.branch(i_eq(a[1], 0, 64)):
+        return i_eq(a[0], 0, 64)
+    return i_eq(_urem(a[0], a[1]), 0, 64)
+
+
+@reg('usize::next_multiple_of')
+def usize_next_multiple_of(m, a, ci):
+    m.panic_if(i_eq(a[1], 0, 64), 'attempt to calculate the remainder with a divisor of zero')
+    r = _urem(a[0], a[1])
+    return b_ite(i_eq(r, 0, 64), a[0], i_add(a[0], i_sub(a[1], r)))
+
+
+class PositionIter(Iter):
+    """itertools::with_position"""
+
+    def __init__(self, inner):
+        self.inner = inner
+        self.items = None
+        self.i = 0
+
+    def next(self, m):
+        if self.items is None:
+            self.items = drain(m, self.inner)
+        n = len(self.items)
+        if self.i >= n:
+            return NONE
+        if n == 1:
+            pos = 3
+        elif self.i == 0:
+            pos = 0
+        elif self.i == n - 1:
+            pos = 2
+        else:
+            pos = 1
+        it = self.items[self.i]
+        self.i += 1
+        return some(tup(CEnum('Position', pos, 64), it))
+
+
+@reg('Itertools::with_position')
+def itertools_with_position(m, a, ci):
+    return PositionIter(get_iter(m, a[0]))
+
+
+@reg('Vec::capacity')
+def vec_capacity(m, a, ci):
+    return len(_vec(m, a[0]).items)
+
+
+@reg('Vec::reserve', 'Vec::shrink_to_fit', 'Vec::reserve_exact')
+def vec_reserve(m, a, ci):
+    return UNIT
